@@ -1,5 +1,6 @@
 import Anndb.Model.Recovery
 import Anndb.Model.RaftLoop
+import Anndb.Proofs.Quorum
 import Anndb.Generated
 /-!
 # C03 — acknowledged writes survive a crash at any instant and restart
@@ -11,6 +12,8 @@ has (`wal.Save` before `processFn`), crashes allowed between any two micro-steps
 * `nothing_invented`   what a restart + replay yields is a sub-sequence of what was submitted;
 * `replay_reaches`     after `restart`, applying the suffix gives exactly the durable list;
 * `apply_first_loses`  with the two statements swapped an acknowledged entry is lost (explicit trace);
+* `acked_entry_meets_every_election`  quorum intersection: an entry stored by a majority is met by
+  every later election, whichever minority crashed and restarted in between;
 * `order_in_code`      the order is the one extracted from `storage/raft/group.go` on this run.
 -/
 namespace Anndb.Recovery
@@ -158,6 +161,18 @@ theorem order_in_code :
 an append before acknowledging it: the whole statement order of the loop is the one proved in C05 -/
 theorem follower_acks_after_save :
     Generated.readyLoopOrder.map RaftLoop.parseStmt = RaftLoop.canonical := by decide
+
+/-- **C03 (any minority of replicas crashes and restarts).** An acknowledgement needs the entry in
+the log stores of a majority (the leader's own: `acked_durable`; a follower's append
+acknowledgement leaves only after its `wal.Save`: `follower_acks_after_save` / C05). Restarts change
+no log store. Hence whichever replicas crashed in between, every majority of voters that elects a
+later leader contains a replica whose store holds the entry; that the elected leader then has it
+is Raft's election restriction (etcd/raft, trusted). -/
+theorem acked_entry_meets_every_election (stores : List (List Nat)) (e : Nat)
+    (hack : stores.length < 2 * (Quorum.holders stores e).length)
+    (Q : List Nat) (hQ : Quorum.Majority stores.length Q) :
+    ∃ r, r ∈ Q ∧ e ∈ stores.getD r [] :=
+  Quorum.acked_entry_meets_every_election stores e hack Q hQ
 
 /-! ## the mutated order loses an acknowledged write -/
 
